@@ -106,7 +106,12 @@ func xferGen(r *rng, maxops int, w *bufio.Writer) {
 	slen := r.pick(0, 1, 7, 64, 300, 2000)
 	fmt.Fprintf(w, "! new %d %s\n", slen, kind)
 	n := 1 + r.intn(maxops)
+	side := newRng(r.s ^ 0x5eed0d15)
 	for i := 0; i < n; i++ {
+		d := ""
+		if kind == "fifo" && side.intn(3) == 0 {
+			d = " d"
+		}
 		length := r.pick(1, 2, 3, 8, 17, 64, 255, 1000)
 		all := r.intn(2)
 		if kind == "adapter" && r.intn(2) == 0 {
@@ -131,9 +136,9 @@ func xferGen(r *rng, maxops int, w *bufio.Writer) {
 				}
 			}
 			es = append(es, "f")
-			fmt.Fprintf(w, "! write %d %d %d %s\n", length, i, all, strings.Join(es, ","))
+			fmt.Fprintf(w, "! write %d %d %d %s%s\n", length, i, all, strings.Join(es, ","), d)
 		} else {
-			fmt.Fprintf(w, "! read %d %d %s\n", length, all, xferSched(r, length, all == 1, kind == "fifo", false))
+			fmt.Fprintf(w, "! read %d %d %s%s\n", length, all, xferSched(r, length, all == 1, kind == "fifo", false), d)
 		}
 	}
 }
@@ -290,6 +295,7 @@ func xferRun(script []string, w *bufio.Writer) {
 			kind = t[2]
 		case "read", "write":
 			isRead := t[0] == "read"
+			deferred := t[len(t)-1] == "d" // issued with IO.Dispatched at the limit: the first attempt is left to the poller
 			length, _ := strconv.Atoi(t[1])
 			var all bool
 			var sched []string
@@ -395,20 +401,30 @@ func xferRun(script []string, w *bufio.Writer) {
 					}
 				}
 				issued := false
-				issue := func() {
-					issued = true
-					if all {
-						f.AsyncWriteAll(buf, cb)
-					} else {
-						f.AsyncWrite(buf, cb)
-					}
-				}
 				pollOnce := func() {
 					deadline := time.Now().Add(5 * time.Second)
 					for !done && time.Now().Before(deadline) {
 						if n, _ := ioc.PollOne(); n > 0 {
 							return
 						}
+					}
+				}
+				issue := func() {
+					issued = true
+					if deferred {
+						ioc.Dispatched = sonic.MaxCallbackDispatch
+					}
+					if all {
+						f.AsyncWriteAll(buf, cb)
+					} else {
+						f.AsyncWrite(buf, cb)
+					}
+					if deferred {
+						ioc.Dispatched = 0
+						if done {
+							fmt.Fprintf(w, "< completed-inline-at-the-dispatch-limit\n")
+						}
+						pollOnce()
 					}
 				}
 				for _, e := range sched {
@@ -466,12 +482,32 @@ func xferRun(script []string, w *bufio.Writer) {
 				}
 				soFar := 0
 				issued := false
+				fedBeforeIssue := false
 				issue := func() {
 					issued = true
+					if deferred {
+						ioc.Dispatched = sonic.MaxCallbackDispatch
+					}
 					if all {
 						f.AsyncReadAll(buf[:length], cb)
 					} else {
 						f.AsyncRead(buf[:length], cb)
+					}
+					if deferred {
+						ioc.Dispatched = 0
+						if done {
+							fmt.Fprintf(w, "< completed-inline-at-the-dispatch-limit\n")
+						}
+						// the pipe is readable (a chunk was fed, or the writer is gone): the poller makes the first attempt; with an
+						// empty pipe there is nothing to dispatch yet
+						if fedBeforeIssue {
+							deadline := time.Now().Add(5 * time.Second)
+							for !done && time.Now().Before(deadline) {
+								if n, _ := ioc.PollOne(); n > 0 {
+									break
+								}
+							}
+						}
 					}
 				}
 				for _, e := range sched {
@@ -502,6 +538,7 @@ func xferRun(script []string, w *bufio.Writer) {
 						}
 					}
 					if !issued {
+						fedBeforeIssue = fed
 						issue()
 					} else if fed {
 						deadline := time.Now().Add(5 * time.Second)
